@@ -268,3 +268,64 @@ impl<J> Clone for Broker<J> {
         Broker(self.0.clone())
     }
 }
+
+
+/// A view of a checker's visited map whose operations are scheduling points, so that a worker
+/// can be pre-empted *between* two operations on the map (a lookup followed by a later insert).
+/// A single operation stays atomic. Installed inside `check_block` by shadowing the parameter.
+pub struct YieldingMap<'a, K, V, S>(pub &'a dashmap::DashMap<K, V, S>);
+
+impl<'a, K, V, S> YieldingMap<'a, K, V, S>
+where
+    K: Eq + Hash,
+    S: std::hash::BuildHasher + Clone,
+{
+    pub fn contains_key(&self, key: &K) -> bool {
+        yield_point("map.contains_key");
+        self.0.contains_key(key)
+    }
+    pub fn insert(&self, key: K, value: V) -> Option<V> {
+        yield_point("map.insert");
+        self.0.insert(key, value)
+    }
+    pub fn entry(&self, key: K) -> dashmap::mapref::entry::Entry<'a, K, V> {
+        yield_point("map.entry");
+        self.0.entry(key)
+    }
+    pub fn get(&self, key: &K) -> Option<dashmap::mapref::one::Ref<'a, K, V>> {
+        yield_point("map.get");
+        self.0.get(key)
+    }
+}
+
+impl<'a, K, V, S> std::ops::Deref for YieldingMap<'a, K, V, S> {
+    type Target = dashmap::DashMap<K, V, S>;
+    fn deref(&self) -> &Self::Target {
+        self.0
+    }
+}
+
+/// The same for the visited set of the depth-first checker.
+pub struct YieldingSet<'a, K, S>(pub &'a dashmap::DashSet<K, S>);
+
+impl<'a, K, S> YieldingSet<'a, K, S>
+where
+    K: Eq + Hash,
+    S: std::hash::BuildHasher + Clone,
+{
+    pub fn contains(&self, key: &K) -> bool {
+        yield_point("set.contains");
+        self.0.contains(key)
+    }
+    pub fn insert(&self, key: K) -> bool {
+        yield_point("set.insert");
+        self.0.insert(key)
+    }
+}
+
+impl<'a, K, S> std::ops::Deref for YieldingSet<'a, K, S> {
+    type Target = dashmap::DashSet<K, S>;
+    fn deref(&self) -> &Self::Target {
+        self.0
+    }
+}
